@@ -495,3 +495,100 @@ def field_cases(ctx, cases, meta):
         allowed = bool(enums.is_attribute(T[tagname], kmip_version=enums.KMIPVersion.KMIP_2_0))
         if (data is not None) != allowed:
             ctx.disagreement('c16', {'Attributes.write and is_attribute differ': tagname})
+
+
+# ====================================================================================== later fields on the wire
+REQUEST_CLASSES = {
+    'CreateRequestPayload': enums.Operation.CREATE, 'RegisterRequestPayload': enums.Operation.REGISTER,
+    'DeriveKeyRequestPayload': enums.Operation.DERIVE_KEY, 'CreateKeyPairRequestPayload': enums.Operation.CREATE_KEY_PAIR,
+    'EncryptRequestPayload': enums.Operation.ENCRYPT, 'DecryptRequestPayload': enums.Operation.DECRYPT,
+    'DeleteAttributeRequestPayload': enums.Operation.DELETE_ATTRIBUTE, 'ModifyAttributeRequestPayload': enums.Operation.MODIFY_ATTRIBUTE,
+    'LocateRequestPayload': enums.Operation.LOCATE, 'GetAttributesRequestPayload': enums.Operation.GET_ATTRIBUTES,
+}
+
+
+def splice_into(struct_bytes, path, tagv, raw, pred):
+    """Insert the TTLV item `raw` among the children of the structure reached from struct_bytes by the tag path (first
+    child with each tag), after the child tagged `pred` (or first).  Lengths are recomputed on the way up.  Independent of
+    PyKMIP (children / rebuild above)."""
+    ch = children(struct_bytes)
+    if not path:
+        pos = 0
+        for k, (tag, _) in enumerate(ch):
+            if tag == pred:
+                pos = k + 1
+        return rebuild(struct_bytes, ch[:pos] + [(tagv, raw)] + ch[pos:])
+    for k, (tag, item) in enumerate(ch):
+        if tag == path[0]:
+            ch[k] = (tag, splice_into(item, path[1:], tagv, raw, pred))
+            return rebuild(struct_bytes, ch)
+    raise KeyError(path[0])
+
+
+def wire_field_cases(ctx, cases, meta):
+    """For every version-conditional field of the request envelope and of the request payloads: a well-formed request of a
+    version that does not have the field yet, with the field's TTLV item spliced in at its place by an independent encoder,
+    sent through the real KmipSession.  The request must be refused before the engine sees it."""
+    import kdrv as _k
+    import sessdrv
+    eng = _k.Engine(workdir=ctx.work)
+    proxy = sessdrv.EngineProxy(eng)
+    targets = [('RequestBatchItem', 'EPHEMERAL', None)]
+    for name, op in REQUEST_CLASSES.items():
+        for t in RECIPES[name]['tags']:
+            if t in SPEC_FIELD_MIN:
+                targets.append((name, t, op))
+    try:
+        for name, t, op in targets:
+            rc = RECIPES[name]
+            src = None
+            for kv in reversed(KV):
+                VARIANT[0] = 0
+                d, _ = try_encode(rc['build']({t}), kv)
+                if d is None:
+                    continue
+                ch = children(d)
+                for k, (tag, raw) in enumerate(ch):
+                    if tag == T[t].value:
+                        src = (raw, ch[k - 1][0] if k else None)
+                if src:
+                    break
+            if src is None:
+                ctx.disagreement('c16', {'wire-field: no encoding emits the tag': (name, t)})
+                continue
+            raw, pred = src
+            for kv in KV:
+                v = ver_of(kv)
+                if not SPEC_FIELD_MIN[t] > v:
+                    continue
+                if op is None:
+                    item = (enums.Operation.ACTIVATE, payloads.ActivateRequestPayload(unique_identifier=A.UniqueIdentifier('1')))
+                    path = [T.BATCH_ITEM.value]
+                else:
+                    base_payload = rc['build'](set())
+                    if try_encode(base_payload, kv)[0] is None:
+                        continue
+                    item = (op, base_payload)
+                    path = [T.BATCH_ITEM.value, T.REQUEST_PAYLOAD.value]
+                req = eng.build([item], version=v)
+                frame = sessdrv.encode_request(req, v)
+                try:
+                    spliced = splice_into(frame, path, T[t].value, raw, pred)
+                except KeyError:
+                    continue
+                ncalls = len(proxy.calls)
+                obs, conn = sessdrv.run_spec(proxy, sessdrv.default_spec(spliced, ts=eng.clock.t), dumps=False)
+                processed = len(proxy.calls) > ncalls
+                sent = b''.join(obs['frames'][0]['sent']) if obs['frames'] else b''
+                cases.append('CFieldRead %s %s %s %s' % (cp.string(name), cver(v), cp.string(t), cp.boolean(processed)))
+                meta.append(('wire-field', name, t, v))
+                ctx.case_seen(('wire-field', name, t, v))
+                ctx.count('wire-field.%s' % ('processed' if processed else 'refused'))
+                if processed:
+                    ctx.violation({'class': 'field-accepted', 'payload': name, 'tag': t, 'version': '%d.%d' % v, 'via': 'session'},
+                                  {'class': name, 'tag': t, 'request_version': v, 'request_hex': spliced.hex(), 'answer_hex': sent.hex()[:400],
+                                   'operation': op.name if op else 'ACTIVATE'},
+                                  'a KMIP %d.%d request carrying %s (%s, introduced in KMIP %d.%d) is decoded by the session and handed to the engine' % (
+                                      v[0], v[1], t, name, SPEC_FIELD_MIN[t][0], SPEC_FIELD_MIN[t][1]))
+    finally:
+        eng.close()
